@@ -41,11 +41,34 @@ type proc struct {
 
 	exited  chan struct{} // closed when the child has been reaped
 	waitErr error
+
+	// the child's standard input is not the terminal (see Stdin*): the write
+	// end of its pipe, which the harness keeps open and "types" on
+	stdinW *os.File
+}
+
+// stdinSpec says what the child's standard input is when it is not the
+// terminal: kind is one of the Stdin* constants, path/content the regular
+// file of StdinFile.
+type stdinSpec struct {
+	kind    string
+	path    string
+	content []byte
 }
 
 // startProc starts bin with argv, either under a fresh pty put into termios
 // variant v, or in a new session without any controlling terminal.
 func startProc(tty bool, bin string, argv, env []string, v int) (*proc, error) {
+	return startProcStdin(tty, bin, argv, env, v, stdinSpec{})
+}
+
+// startProcStdin is startProc with the child's standard input redirected
+// away from the terminal (in.kind != StdinTTY; tty only): the pty stays the
+// controlling terminal, standard output and standard error.
+func startProcStdin(tty bool, bin string, argv, env []string, v int, in stdinSpec) (*proc, error) {
+	if in.kind != StdinTTY && !tty {
+		return nil, errors.New("redirected standard input is for cases with a terminal only")
+	}
 	p := &proc{tty: tty, slaveFd: -1, notify: make(chan struct{}, 1), exited: make(chan struct{})}
 	p.cmd = exec.Command(bin, argv...)
 	p.cmd.Env = env
@@ -85,6 +108,30 @@ func startProc(tty bool, bin string, argv, env []string, v int) (*proc, error) {
 		defer cs.Close()
 		p.cmd.Stdin, p.cmd.Stdout, p.cmd.Stderr = cs, cs, cs
 		p.cmd.SysProcAttr = &syscall.SysProcAttr{Setsid: true, Setctty: true, Ctty: 0}
+		if in.kind != StdinTTY {
+			// descriptor 0 is something else: the terminal becomes the
+			// controlling one through descriptor 1
+			p.cmd.SysProcAttr.Ctty = 1
+			var rd *os.File
+			switch in.kind {
+			case StdinDevNull:
+				rd, err = os.Open(os.DevNull)
+			case StdinPipe:
+				rd, p.stdinW, err = os.Pipe()
+			case StdinFile:
+				if err = os.WriteFile(in.path, in.content, 0o600); err == nil {
+					rd, err = os.Open(in.path)
+				}
+			default:
+				err = fmt.Errorf("unknown kind of standard input %q", in.kind)
+			}
+			if err != nil {
+				p.closeFiles()
+				return nil, fmt.Errorf("preparing the child's standard input: %w", err)
+			}
+			defer rd.Close() // the child has its own copy
+			p.cmd.Stdin = rd
+		}
 		p.rdDone = make(chan struct{})
 		go p.readMaster()
 	} else {
@@ -136,6 +183,16 @@ func (p *proc) closeFiles() {
 		unix.Close(p.slaveFd)
 		p.slaveFd = -1
 	}
+	p.closeStdin()
+}
+
+// closeStdin closes the harness's end of the child's standard input pipe (if
+// any): the child reads end-of-file.
+func (p *proc) closeStdin() {
+	if p.stdinW != nil {
+		p.stdinW.Close()
+		p.stdinW = nil
+	}
 }
 
 // output is what the pty has shown so far.
@@ -145,8 +202,22 @@ func (p *proc) output() []byte {
 	return append([]byte(nil), p.buf...)
 }
 
-// send types b on the terminal.
+// send types b where the program reads the operator's keys: on the terminal,
+// or into the pipe that is its standard input.
 func (p *proc) send(b []byte) error {
+	if p.stdinW != nil {
+		// the keys go where the program may read them: into the pipe that is its
+		// standard input, and onto the terminal as well (a program that reads
+		// its keys from /dev/tty is as good as one that reads standard input)
+		_, _ = p.master.Write(b)
+		_, err := p.stdinW.Write(b)
+		if errors.Is(err, syscall.EPIPE) {
+			// nobody reads any more (the child is gone or has closed it):
+			// keys typed into the void, as they would be on a terminal
+			return nil
+		}
+		return err
+	}
 	_, err := p.master.Write(b)
 	return err
 }
